@@ -16,4 +16,44 @@ template<> struct __cap<Theo::MacroDefinition> { static constexpr int v = MA_ND;
 template<> struct __cap<MacroDetector> { static constexpr int v = MA_ND; };
 template<class B> struct __cap<pair<MacroDetector, B>> { static constexpr int v = MA_ND; };   // detected_macros (B = MacroDetector::Response)
 template<> struct __mcap<int, vector<MacroDetector>> { static constexpr int v = MA_ND; };     // priority bins
+
+// ---- vectors of LARGE elements (MacroDetector ~1 KB, pair<MacroDetector,Response> ~3 KB, a whole token sequence as element).
+// The flat vector<T> of the base model keeps its elements in one array; a reference to the element at a SYMBOLIC index is then a
+// pointer with an unknown offset into that object, which CBMC resolves byte-wise (measured: one such read of a 3 KB element does
+// not finish in 20 GB).  For the element types listed in __big<> the elements therefore live in separately allocated objects:
+// a reference to the i-th element is a choice among CAP distinct objects, which CBMC resolves field by field.  Same interface,
+// same assertions ("(UB)" preconditions, "(model bound)" capacities), value semantics (deep copies).
+template<class T> struct __big { static constexpr bool v = false; };
+template<> struct __big<MacroDetector> { static constexpr bool v = true; };
+template<class B> struct __big<pair<MacroDetector, B>> { static constexpr bool v = true; };
+template<> struct __big<vector<Theo::Token>> { static constexpr bool v = true; };
+template<> struct __big<Theo::MacroDefinition> { static constexpr bool v = true; };
+template<class T, int CAP> struct __bigflat {
+  typedef T value_type; static constexpr int FCAP = CAP;
+  int n; T* p[CAP];
+  __bigflat() : n(0) { for (int k = 0; k < CAP; k++) p[k] = (T*)::operator new(sizeof(T)); }
+  __bigflat(const __bigflat& o) : n(0) { for (int k = 0; k < CAP; k++) { p[k] = (T*)::operator new(sizeof(T)); if (k < o.n) new (p[k]) T(*o.p[k]); } n = o.n; }
+  __bigflat& operator=(const __bigflat& o) { if (this != &o) { for (int k = 0; k < CAP; k++) if (k < o.n) new (p[k]) T(*o.p[k]); n = o.n; } return *this; }
+  void __clear() { n = 0; }
+  T& __at(long i) { T* r = p[0]; for (int k = 1; k < CAP; k++) if (i == k) r = p[k]; return *r; }
+  const T& __at(long i) const { const T* r = p[0]; for (int k = 1; k < CAP; k++) if (i == k) r = p[k]; return *r; }
+};
+template<class T> requires __big<T>::v struct vector<T> : __bigflat<T, __cap<T>::v> {
+  static constexpr int VCAP = __cap<T>::v;
+  typedef __bigflat<T, VCAP> F;
+  using F::n; using F::p; using F::__at;
+  typedef __iter<F, T> iterator; typedef __iter<const F, const T> const_iterator; typedef size_t size_type; typedef T value_type;
+  vector() {}
+  vector(initializer_list<T> l) { for (const T* q = l.begin(); q != l.end(); ++q) push_back(*q); }
+  void push_back(const T& x) { __CPROVER_assert(n < VCAP, "ministl: vector capacity (model bound)"); for (int k = 0; k < VCAP; k++) if (k == n) new (p[k]) T(x); n++; }
+  void pop_back() { __CPROVER_assert(n > 0, "ministl: pop_back on empty vector (UB)"); n--; }
+  void clear() { n = 0; }
+  T& back() { __CPROVER_assert(n > 0, "ministl: back() on empty vector (UB)"); return __at(n - 1); }
+  T& front() { __CPROVER_assert(n > 0, "ministl: front() on empty vector (UB)"); return *p[0]; }
+  T& operator[](size_t i) { __CPROVER_assert(i < (size_t)n, "ministl: vector index out of range (UB)"); return __at((long)i); }
+  const T& operator[](size_t i) const { __CPROVER_assert(i < (size_t)n, "ministl: vector index out of range (UB)"); return __at((long)i); }
+  size_t size() const { return n; } bool empty() const { return n == 0; }
+  iterator begin() { return iterator(this, 0); } iterator end() { return iterator(this, n); }
+  const_iterator begin() const { return const_iterator(this, 0); } const_iterator end() const { return const_iterator(this, n); }
+};
 }
